@@ -152,7 +152,7 @@ Proof.
   destruct (pre_collide real d); [intros H; inversion H; subst; reflexivity|].
   destruct (rget real (loose d)) eqn:El; cbn [orb]; [intros H; inversion H; subst; reflexivity|].
   destruct (post_collide real d); cbn [orb]; [intros H; inversion H; subst; reflexivity|].
-  destruct (rget n (packed d)) eqn:Ep; [intros H; inversion H; subst; reflexivity|].
+  destruct (rget real (packed d)) eqn:Ep; [intros H; inversion H; subst; reflexivity|].
   intros H; inversion H; subst. clear H.
   exists real. split.
   - unfold follow in Ef. apply (follow_f_none _ _ _ _ _ n) in Ef. exact Ef.
